@@ -1,14 +1,18 @@
-(* Case runner for C16: <text hex> TAB <mode> TAB <whitelist> TAB <enabled bits> *)
-From Coq Require Import List NArith Bool.
-From UF Require Import Base.Lit Base.Bytes Base.Codec Model.Options.
+(* Case runner for C16: <text hex> TAB <mode>; the model parses the rule text itself. *)
+From Coq Require Import List NArith ZArith Bool.
+From UF Require Import Base.Lit Base.Bytes Base.Codec Model.Options Model.NetRule Model.Result Run.Common.
 Import ListNotations.
 
 Definition run_case (line : bytes) : bytes :=
   let fs := fields line in
   let mode := nth_field fs 1 in
   if bytes_eqb mode $"absent" then dec_of_N (get_cosmetic_option None)
-  else if bytes_eqb (nth_field fs 2) $"E" then $"E"
-  else match N_of_dec (nth_field fs 3) with
-       | Some en => dec_of_N (get_cosmetic_option (Some (dec_bool (nth_field fs 2), en)))
+  else match hex_decode (nth_field fs 0) with
        | None => $"BADCASE"
+       | Some text =>
+         show_res (fun r =>
+           (* the rule is the only match, so it is the basic rule of the result *)
+           let basic := mr_basic (new_matching_result [r] []) in
+           dec_of_N (get_cosmetic_option (option_map (fun b => (nr_whitelist b, nr_enabled b)) basic)))
+           (new_network_rule text 1%Z)
        end.
